@@ -12,9 +12,40 @@ NOT_APPLICABLE = {}
 
 DOMAINS = {
     "semver": {"timeout": 1200},
+    "ranges": {"timeout": 2400},
+    "rangeord": {"timeout": 2400},
+    "rangeq": {"timeout": 2400},
 }
 
+RANGE_NOTE = ("Trusted: Coq kernel, ExtrOcamlBasic extraction, harness/driver. Range<V> is modelled by the slice of its segments "
+              "(Model/Range.v, hand-written, generic in the ordered version type); std's binary_search_by in `contains` is modelled as the "
+              "linear cursor (equal on sorted segments); the tie to src/range.rs is the exhaustive correspondence over all canonical ranges on "
+              "k bound values (every relative order of bound values, every inclusive/exclusive combination), run on every check.")
+
 PROPS = {
+    "C10": {
+        "props": "Props/Properties_C10.v",
+        "level": "proof",
+        "technique": "Coq proof (functor over any ordered version type) of pointwise set laws, canonical form and extensional equality + exhaustive small-scope correspondence",
+        "level_text": "14 Coq theorems over Model/Range.v for every decidable total order of versions: every range reachable through the public API is canonical; union/intersection/complement are the pointwise set operations on the dense completion of the version order (hence on versions); is_disjoint/subset_of agree with the pointwise definitions; canonical ranges with the same points are structurally equal; a∩b=a iff subset, a∩b=∅ iff disjoint. Tie: all 128x128 pairs of canonical ranges over 3 bound values (thorough: 512x512 over 4) built through three different API construction trees, every observable compared with the extracted model, plus pointwise-law oracles on the Rust results.",
+        "level_note": RANGE_NOTE,
+        "domains": ["ranges"],
+        "exhaustive": True,
+        "rule": "all canonical ranges over bound values {10,20,30} = subsets of the 7 cells (-inf,10),{10},(10,20),...,(30,inf): 128 ranges x 3 construction trees (unary ops) and all 128^2 ordered pairs (binary ops, predicates, ==, cmp, hash), each built through the public API only; thorough adds k=4 (512 ranges, 262144 pairs). distinct = distinct case text; non-trivial = every case (each evaluates the operations on a distinct pair of sets).",
+        "assumptions": ["order-isomorphism: the code only compares bound values, so behaviour depends only on their relative order (property text)",
+                        "SmallVec abstracted to as_slice; std slice::binary_search_by trusted"],
+    },
+    "C16": {
+        "props": "Props/Properties_C16.v",
+        "level": "proof",
+        "technique": "Coq proof that Range::cmp is the lexicographic order of bound positions (total, Eq iff ==) for all segment lists + exhaustive pairs / sampled-or-exhaustive triples correspondence",
+        "level_text": "10 Coq theorems: range_cmp = Eq iff equal, antisymmetric, transitive, total, partial_cmp = Some cmp, == iff cmp = Eq, the two 9-arm bound tables are the position orders of start/end bounds (any ordered version type, any segment list, canonical or not); Eq and Hash of the 4-variant SmallVec are functions of as_slice (equal => same hash stream). Tie: cmp/partial_cmp/==/DefaultHasher+FxHasher equality on all 128^2 pairs built through different construction trees, triples sampled (quick) or all 2M (thorough).",
+        "level_note": RANGE_NOTE + " The concrete hash functions are not modelled: only that equal values feed equal streams; that == ranges hash equally under DefaultHasher and FxHasher is observed on every pair.",
+        "domains": ["rangeord"],
+        "exhaustive": True,
+        "rule": "all 128^2 ordered pairs of canonical ranges over 3 bound values, the two sides built through different API trees (cmp, partial_cmp, reverse cmp, ==, hash equality); triples: 20000 seeded (quick) / all 128^3 (thorough). distinct = distinct case text; all non-trivial.",
+        "assumptions": ["std::hash::Hash for tuples/Bound/u32 and the hashers are trusted"],
+    },
     "C20": {
         "props": "Props/Properties_C20.v",
         "level": "proof",
